@@ -261,10 +261,16 @@ func (s *changeTrackingUpdater) Upsert(obj client.Object) {
 func (s *changeTrackingUpdater) delete(objType ngftypes.ObjectType, nsname types.NamespacedName) (changed bool) {
 	objTypeGVK := s.extractGVK(objType)
 
+	subject := client.Object(objType)
+
 	if s.store.persists(objTypeGVK) {
-		if s.store.get(objType, nsname) == nil {
+		old := s.store.get(objType, nsname)
+		if old == nil {
 			return false
 		}
+
+		// the predicate judges the object that is being deleted, not the bare registered type
+		subject = old
 
 		s.store.delete(objType, nsname)
 	}
@@ -274,7 +280,7 @@ func (s *changeTrackingUpdater) delete(objType ngftypes.ObjectType, nsname types
 		return true
 	}
 
-	return stateChanged.delete(objType, nsname)
+	return stateChanged.delete(subject, nsname)
 }
 
 func (s *changeTrackingUpdater) Delete(objType ngftypes.ObjectType, nsname types.NamespacedName) {
